@@ -128,7 +128,11 @@ fn op_build(_w: &World) -> Result<(), Violation> {
     let res: Result<LhsValue<'static>, TypeMismatchError> = match ctor {
         0 => Array::try_from_iter(elem_ty.to_type(), lhs.clone()).map(LhsValue::Array),
         1 => Array::try_from_vec(elem_ty.to_type(), lhs.clone()).map(LhsValue::Array),
-        _ => Map::try_from_iter::<TypeMismatchError, _>(elem_ty.to_type(), lhs.clone().into_iter().enumerate().map(|(i, e)| Ok((format!("k{i}").into_bytes().into_boxed_slice(), e)))).map(LhsValue::Map),
+        _ => {
+            // keys may repeat: a later value for the same key is checked like any other
+            let modulo = if chance(1, 2, "build.dup_keys") { 2 } else { 1000 };
+            Map::try_from_iter::<TypeMismatchError, _>(elem_ty.to_type(), lhs.clone().into_iter().enumerate().map(|(i, e)| Ok((format!("k{}", i % modulo).into_bytes().into_boxed_slice(), e)))).map(LhsValue::Map)
+        }
     };
     crate::tr!("  build {class}<{}> from {:?} -> {}", elem_ty.short(), elems.iter().map(|e| e.mtype().short()).collect::<Vec<_>>(), if res.is_ok() { "Ok" } else { "Err" });
     match (res, all_ok) {
